@@ -33,6 +33,14 @@ def attrs_of(o):
     errs = []
     for k in o.ncattrs():
         try:
+            # getncattr first: on netCDF4 objects a python attribute of the
+            # same name (scale, mask, dtype ...) shadows the netCDF attribute
+            if hasattr(o, 'getncattr'):
+                try:
+                    out[k] = attr_copy(o.getncattr(k))
+                    continue
+                except Exception:
+                    pass
             out[k] = attr_copy(getattr(o, k))
         except Exception as e:  # listed but not retrievable
             errs.append((k, repr(e)))
@@ -52,6 +60,10 @@ def snap_var(v):
     s = VarSnap()
     s.dims = tuple(v.dimensions)
     arr = v[...]
+    if arr is np.ma.masked:
+        # netCDF4 returns the (float64) masked singleton for a masked 0-d
+        # value; the variable's own dtype is the observable one
+        arr = np.ma.array(np.zeros((), getattr(v, 'dtype', 'f8')), mask=True)
     s.masked_type = isinstance(arr, np.ma.MaskedArray)
     s.data, s.mask, s.fill = plain(arr)
     s.dtype = s.data.dtype.str
